@@ -288,6 +288,8 @@ fn c07_for(cx: &Ctx, si: usize) -> Vec<Finding> {
             *tpos,
         ));
     }
+    // "completes the sink" / "complete exactly when upstream does": once
+    completed_once(cx, "C07", sub, &mut out);
     out
 }
 
